@@ -771,6 +771,36 @@ class ConfigResult(dict):
 
 
 _vars_cache = {}
+CROSS = {'on': os.environ.get('VERIF_CROSS') == '1', 'agree': 0, 'cvc5_unknown': 0, 'disagree': [], 'skipped': 0, 'time': 0.0}
+
+
+def cvc5_verdict(smt2, timeout_ms=8000):
+    """second opinion (DESIGN §4.4): the same SMT-LIB text handed to cvc5 (python wheel)."""
+    try:
+        import cvc5
+    except Exception:
+        return 'unavailable'
+    try:
+        slv = cvc5.Solver()
+        slv.setOption('tlimit-per', str(timeout_ms))
+        slv.setLogic('ALL')
+        ip = cvc5.InputParser(slv)
+        ip.setStringInput(cvc5.InputLanguage.SMT_LIB_2_6, smt2, 'obligation')
+        sm = ip.getSymbolManager()
+        res = 'unknown'
+        while True:
+            cmd = ip.nextCommand()
+            if cmd.isNull():
+                break
+            out = cmd.invoke(slv, sm).strip()
+            if out in ('sat', 'unsat', 'unknown'):
+                res = out
+            elif out.startswith('(error'):
+                return 'error'
+        return res
+    except Exception as e:          # parse errors for z3-specific constructs etc.
+        return 'error'
+
 
 
 def _vars_of(t):
@@ -829,6 +859,19 @@ def prove(facts, goal_t, timeout_ms):
     t0 = time.time()
     r = str(s.check())
     m = s.model() if r == 'sat' else None
+    if CROSS['on'] and r in ('sat', 'unsat'):
+        t1 = time.time()
+        v = cvc5_verdict(s.to_smt2())
+        CROSS['time'] += time.time() - t1
+        if v in ('sat', 'unsat'):
+            if v == r:
+                CROSS['agree'] += 1
+            else:
+                CROSS['disagree'].append(f'z3 {r} vs cvc5 {v}: {_short(goal_t, 160)}')
+        elif v == 'unknown':
+            CROSS['cvc5_unknown'] += 1
+        else:
+            CROSS['skipped'] += 1
     if r == 'sat':
         # complete the model over the facts that were outside the cone (input ranges of unrelated variables, ...)
         s2 = z3.Solver()
@@ -1001,6 +1044,13 @@ def run_symbolic(scen, cfg, lib, limits=None, known=None, prop='?', cfg_name='?'
         res['max_path_len'] = max(res['max_path_len'], len(c.decisions))
         work.extend(c.alternatives)
     res['wall_s'] = time.time() - t_start
+    res['cross'] = {k: (list(v) if isinstance(v, list) else v) for k, v in CROSS.items()}
+    for k in ('agree', 'cvc5_unknown', 'skipped'):
+        CROSS[k] = 0
+    CROSS['disagree'] = []
+    CROSS['time'] = 0.0
+    for dmsg in res['cross']['disagree']:
+        res['inconclusive'].append('solver disagreement: ' + dmsg)
     return res
 
 
